@@ -4,6 +4,17 @@ From Verif Require Import Kip.Budget Kip.Lex.
 Import ListNotations.
 Local Open Scope N_scope.
 
+Section LexerProofs.
+  Variable terms : list N.
+  Notation tstep := (tstep terms).
+  Notation run := (run terms).
+  Notation tokens := (tokens terms).
+  Notation tokens_ci := (tokens_ci terms).
+  Notation flip_words := (flip_words terms).
+  Notation trivia := (trivia terms).
+  Notation lex_equiv := (lex_equiv terms).
+  Notation is_cterm := (is_cterm terms).
+
 (* ---- reading a concatenation -------------------------------------------------------------- *)
 Lemma run_app : forall a b m acc,
   run m acc (a ++ b) =
@@ -23,26 +34,25 @@ Definition tail_tokens (m : tmode) (acc : list N) (x : list N) : list token :=
 Lemma tokens_app a x out m acc :
   run LCode [] a = (out, m, acc) -> tokens (a ++ x) = out ++ tail_tokens m acc x.
 Proof.
-  intros H. unfold tokens, tail_tokens. rewrite run_app, H.
+  intros H. unfold Lex.tokens, tail_tokens. rewrite run_app, H.
   destruct (run m acc x) as [[o2 m2] a2]. now rewrite app_assoc.
 Qed.
 
 (* ---- trivia reads as nothing ---------------------------------------------------------------- *)
-Lemma run_comment_body : forall body, ~ In c_nl body ->
-  run LComment [] (body ++ [c_nl]) = ([], LCode, []).
+Lemma run_comment_body : forall body t, (forall x, In x body -> is_cterm x = false) -> is_cterm t = true ->
+  run LComment [] (body ++ [t]) = ([], LCode, []).
 Proof.
-  induction body as [|c body IH]; intros Hn; simpl.
-  - reflexivity.
-  - destruct (c =? c_nl) eqn:E.
-    + apply N.eqb_eq in E. exfalso. apply Hn. left. now symmetry.
-    + rewrite IH; [reflexivity|]. intros Hin. apply Hn. now right.
+  induction body as [|c body IH]; intros t Hn Ht; simpl.
+  - rewrite Ht. reflexivity.
+  - rewrite (Hn c (or_introl eq_refl)).
+    rewrite IH; [reflexivity| |exact Ht]. intros x Hx. apply Hn. now right.
 Qed.
 
 Lemma trivia_run t : trivia t -> forall acc, run LCode acc t = (flush acc, LCode, []).
 Proof.
-  induction 1 as [c Hc|body Hb|t1 t2 H1 IH1 H2 IH2]; intros acc.
+  induction 1 as [c Hc|body t Hb Ht|t1 t2 H1 IH1 H2 IH2]; intros acc.
   - simpl. unfold code_char. rewrite Hc. now rewrite app_nil_r.
-  - change (c_slash :: c_slash :: body ++ [c_nl]) with ([c_slash; c_slash] ++ (body ++ [c_nl])).
+  - change (c_slash :: c_slash :: body ++ [t]) with ([c_slash; c_slash] ++ (body ++ [t])).
     rewrite run_app. cbn -[flush]. rewrite run_comment_body by assumption. now rewrite !app_nil_r.
   - rewrite run_app, IH1, IH2. simpl. now rewrite app_nil_r.
 Qed.
@@ -139,7 +149,7 @@ Lemma flip_run : forall cs m acc acc' mask,
 Proof.
   induction cs as [|c r IH]; intros m acc acc' mask Hrel.
   - simpl. split; [reflexivity|split; [reflexivity|exact Hrel]].
-  - cbn [flip_words run].
+  - cbn [Lex.flip_words Lex.run].
     set (b := match mask with b :: _ => b | [] => false end).
     set (in_code := match m with LCode | LSlash => true | _ => false end).
     set (c' := if in_code && b && is_letter c then flipc c else c).
@@ -155,7 +165,7 @@ Proof.
         repeat (apply andb_prop in LF as [LF ?]).
         repeat match goal with H : negb _ = true |- _ => apply negb_true_iff in H end.
         match goal with H : (upper _ =? upper _) = true |- _ => apply N.eqb_eq in H; rename H into Hu end.
-        subst c'. destruct m; try discriminate; cbn [tstep].
+        subst c'. destruct m; try discriminate; cbn [Lex.tstep].
         + unfold code_char.
           repeat match goal with H : _ = false |- _ => rewrite H end.
           repeat match goal with H : is_wordc _ = true |- _ => rewrite H end.
@@ -166,7 +176,7 @@ Proof.
           repeat match goal with H : is_wordc _ = true |- _ => rewrite H end.
           repeat split; auto. simpl. now rewrite Hu.
       - (* same character on both sides *)
-        subst c'. destruct m; cbn [tstep].
+        subst c'. destruct m; cbn [Lex.tstep].
         + apply code_char_rel. exact Hup.
         + destruct (c =? c_slash); [repeat split; auto|].
           pose proof (code_char_rel [] [] c eq_refl) as Hcc.
@@ -175,8 +185,8 @@ Proof.
         + subst acc'. destruct (c =? c_bslash); [repeat split; auto|].
           destruct (c =? c_quote); repeat split; auto.
         + subst acc'. repeat split; auto.
-        + destruct (c =? c_nl); repeat split; auto. }
-    revert Hstep. destruct (tstep m acc c) as [[o m1] a1]. cbn [run].
+        + destruct (is_cterm c); repeat split; auto. }
+    revert Hstep. destruct (tstep m acc c) as [[o m1] a1]. cbn [Lex.run].
     destruct (tstep m acc' c') as [[o' m1'] a1']. intros (Ho & Hm & Ha). subst m1'.
     specialize (IH m1 a1 a1' (tl mask) Ha).
     destruct (run m1 a1 r) as [[o2 m2] a2].
@@ -195,7 +205,7 @@ Qed.
 Theorem flip_case_preserves_tokens mask cs :
   tokens_ci (flip_words LCode [] mask cs) = tokens_ci cs.
 Proof.
-  unfold tokens_ci, tokens.
+  unfold Lex.tokens_ci, Lex.tokens.
   pose proof (flip_run cs LCode [] [] mask (conj eq_refl I)) as H.
   destruct (run LCode [] cs) as [[o m] a].
   destruct (run LCode [] (flip_words LCode [] mask cs)) as [[o' m'] a'].
@@ -224,4 +234,5 @@ Proof.
 Qed.
 
 Theorem lex_equiv_spec a b : lex_equiv a b = true <-> tokens_ci a = tokens_ci b.
-Proof. unfold lex_equiv. apply toks_eqb_eq. Qed.
+Proof. unfold Lex.lex_equiv. apply toks_eqb_eq. Qed.
+End LexerProofs.
